@@ -8,6 +8,7 @@ code -> spec : random Seek/Read sequences on the real IndexPos and read(off,size
 """
 import json, os
 import vlib
+from checks import cli_common
 
 TRACE_CFG = """SPECIFICATION TSpec
 CONSTANT TraceFile = "@TRACE@"
@@ -73,6 +74,8 @@ def run(rep, tier, seed):
         rep.case(sc, nontriv)
     for sc in scens[:1] + scens[-1:]:
         rep.sample({"index_chunks": sc[0].get("chunks"), "ops": sc[1:15]})
+    # the command glue: the real binary end to end, judged by CliOutcome.tla
+    cli_common.run(rep, vlib.workdir("C09-cli"), seed, "cat", tier == "thorough")
     rep.rule = ("case = hand-built index of 0-9 chunks (1-6 bytes each over 4 byte values, runs of the null chunk, repeated IDs, zero chunks shorter "
                 "than max) x 40-60 random operations (Seek with every whence incl. negative and past-end, Read of 0..blob+3 bytes, mount-handle "
                 "read(off,size), new handle, change of the failing-ID set) plus scenarios with 3 concurrent requests on one mount handle; "
@@ -83,6 +86,11 @@ def run(rep, tier, seed):
 
 
 def replay(path):
+    import json as _json
+    _d = _json.load(open(path))
+    _r = cli_common.replay_if_cli(_d, vlib.workdir("C09-cli-replay"))
+    if _r is not None:
+        return _r
     d = json.load(open(path))
     work = vlib.workdir("C09-replay")
     f = os.path.join(work, "trace.ndjson")
